@@ -215,12 +215,13 @@ class _Super:
         self.obj, self.cls = obj, cls
 
 
-_GEN_CACHE: dict = {}
+_INTERP_TOKENS = _itertools.count(1)
 
 
 def _is_generator(fn) -> bool:
-    k = id(fn)
-    if k not in _GEN_CACHE:
+    # (memoised on the node itself: an id()-keyed table goes stale when a function node is collected and its address reused)
+    found = getattr(fn, "_pdtsa_is_generator", None)
+    if found is None:
         found = False
         stack = list(fn.body)
         while stack:
@@ -231,8 +232,11 @@ def _is_generator(fn) -> bool:
             if isinstance(n, (ast.FunctionDef, ast.Lambda, ast.ClassDef)):
                 continue
             stack.extend(ast.iter_child_nodes(n))
-        _GEN_CACHE[k] = found
-    return _GEN_CACHE[k]
+        try:
+            fn._pdtsa_is_generator = found
+        except AttributeError:
+            pass
+    return found
 
 
 class Native:
@@ -517,7 +521,11 @@ class Interp(Folder):
             if a == "__class__":
                 return ("type-of", v)
             if a in v.cls.methods:
-                return v.cls.methods[a].bind(v)
+                m_ = v.cls.methods[a]
+                kind = self._method_kind(m_) if isinstance(m_, Func) else "plain"
+                if kind == "staticmethod":
+                    return m_  # looked up on an instance: still no implicit first argument
+                return m_.bind(v)
             if isinstance(v.cls, IClass):
                 try:
                     return self.class_attr(v.cls, a)
@@ -1004,7 +1012,7 @@ class Interp(Folder):
                 local[p] = kwargs.pop(p)
             elif p in defaults:
                 # Python evaluates a default once, when the function is defined: a mutable default is shared by all calls
-                dc = self._default_values.setdefault(id(fn), {})
+                dc = self._defaults_of(fn)
                 if p not in dc:
                     dc[p] = self.ev(defaults[p], f.env)
                 local[p] = dc[p]
@@ -1018,7 +1026,7 @@ class Interp(Folder):
             if p.arg in kwargs:
                 local[p.arg] = kwargs.pop(p.arg)
             elif d is not None:
-                dc = self._default_values.setdefault(id(fn), {})
+                dc = self._defaults_of(fn)
                 if p.arg not in dc:
                     dc[p.arg] = self.ev(d, f.env)
                 local[p.arg] = dc[p.arg]
@@ -1043,6 +1051,21 @@ class Interp(Folder):
         except _Ret as r:
             return local["__yield__"] if gen else r.v
         return local["__yield__"] if gen else None
+
+    def _defaults_of(self, fn):
+        """evaluated parameter defaults of a function node for this interpreter - kept on the node (an id()-keyed table goes
+        stale when a transient function node is collected and its address reused by another one)"""
+        tok = self.__dict__.get("_defaults_token")
+        if tok is None:
+            tok = self.__dict__["_defaults_token"] = f"_pdtsa_defaults_{next(_INTERP_TOKENS)}"
+        d = getattr(fn, tok, None)
+        if d is None:
+            d = {}
+            try:
+                setattr(fn, tok, d)
+            except AttributeError:
+                d = self._default_values.setdefault(id(fn), {})
+        return d
 
     def ev_Yield(self, e, env):
         env["__yield__"].append(self.ev(e.value, env) if e.value is not None else None)
